@@ -162,6 +162,7 @@ package unmarshal
 
 //@ func (*pushRequestDec).decodeStream [C03]
 //@   requires bufOK(p)
+//@   requires own-labels: len(p.Labels) == 0 && len(p.TsNs) == 0
 //@   modifies p.TsNs, p.String, p.Value, p.Types, p.Labels
 //@   ensures bufOK(p)
 //@ func (*pushRequestDec).decodeStream$1 [C03]
